@@ -1,6 +1,7 @@
 package main
 
 import (
+	"crypto/sha256"
 	"fmt"
 	"os"
 	"path/filepath"
@@ -326,6 +327,15 @@ func newExec(P *Program, wk *worker, spec HarnessSpec, prefix []int) *Exec {
 	}
 	if e.opts.MaxSteps == 0 {
 		e.opts.MaxSteps = 2000000
+	}
+	// a hash of bytes that are all constants is the real hash, computed here (exactly what the
+	// native run computes); only hashes over symbolic bytes are uninterpreted
+	e.nativeHash = func(name string, in []byte) []byte {
+		if name == "sha256" {
+			sum := sha256.Sum256(in)
+			return sum[:]
+		}
+		return nil
 	}
 	if e.opts.Races {
 		e.race = newRaceMon()
